@@ -34,10 +34,11 @@ mod summarize;
 mod stream;
 mod outline;
 mod getters;
+mod builders;
 mod retry_options;
 
 fn main() {
-    let path = env::args().nth(1).expect("script path");
+    let path = env::args().nth(1).or_else(|| env::var("CUKE_REPLAY_SCRIPT").ok()).expect("script path");
     let text = fs::read_to_string(&path).expect("read script");
     let lines: Vec<Vec<String>> = text
         .lines()
@@ -58,6 +59,7 @@ fn main() {
         "stream" => stream::run(&lines),
         "outline" => outline::run(&text),
         "getters" => getters::run(&lines),
+        "builders" => builders::run(&lines),
         m => panic!("unknown mode {m}"),
     }
 }
